@@ -159,32 +159,44 @@ Example C23_update_equalises_ex :
                 lbranch c' = mbranch s /\ tparents c' = [2; 1].
 Proof. eexists. eexists. repeat split; reflexivity. Qed.
 
-(* unmerged local commits are pivoted out, not dropped.  Guard: the tree is based
-   on the local tip and has no pending merges ([tparents c = [o]]): the old tip
-   becomes the pending merge of the updated tree *)
-Theorem C23_update_keeps_local_work_guarded :
+(* update never drops the local commits: in every well-formed state ([good], which
+   C23_reachable_well_formed shows for all reachable states), whatever the tree was
+   based on (up to date, or left behind its branch by an interrupted commit) and
+   whatever its pending merges, when the local tip o is not in the master's ancestry
+   the local branch becomes the master's and o stays in the ancestry of one of the
+   tree's parents.  (Before the repair of WorkingTree._update_tree -- /repo b71bd73 --
+   this was false for a tree behind its branch; see notes/C23.md.) *)
+Theorem C23_update_keeps_local_work :
   forall s i c m o,
+  good s -> nth_error (cos s) i = Some c -> is_bound c = true ->
+  tip (mbranch s) = Some m -> tip (lbranch c) = Some o ->
+  is_ancestor (graph s) o m = false ->
+  exists s' c' p, update s i = (Done, s') /\ nth_error (cos s') i = Some c' /\
+                  lbranch c' = mbranch s /\ In p (tparents c') /\ is_ancestor (graph s) o p = true.
+Proof. exact update_keeps_local_work_good. Qed.
+Print Assumptions C23_update_keeps_local_work.
+
+(* without pending merges the tree parents are exactly [master tip; old local tip],
+   whatever the tree was based on *)
+Theorem C23_update_pivots_exact :
+  forall s i c m o b,
   wf_dag (graph s) = true ->
   nth_error (cos s) i = Some c -> is_bound c = true ->
-  tip (mbranch s) = Some m -> tip (lbranch c) = Some o -> tparents c = [o] ->
+  tip (mbranch s) = Some m -> tip (lbranch c) = Some o -> tparents c = [b] ->
   is_ancestor (graph s) o m = false ->
   exists s' c', update s i = (Done, s') /\ nth_error (cos s') i = Some c' /\
                 lbranch c' = mbranch s /\ tparents c' = [m; o].
-Proof. exact update_pivots_local_work. Qed.
-Print Assumptions C23_update_keeps_local_work_guarded.
+Proof. exact update_pivots_exact. Qed.
+Print Assumptions C23_update_pivots_exact.
 
-(* without the guard it is FALSE of the model (and of the code, notes/C23.md):
-   after an interrupted --local commit (branch tip written, tree not) update resets
-   the local branch to the master and records the old tip nowhere *)
-Theorem C23_update_keeps_local_work_refuted :
-  exists s c s' c',
-    s = run (init [false; true; false] true) [Commit 1 true (Some 1)] /\
-    nth_error (cos s) 1 = Some c /\ is_bound c = true /\
-    tip (lbranch c) = Some 1 /\ is_anc_opt (graph s) (Some 1) (tip (mbranch s)) = false /\
+(* the old witness of the repaired defect: an interrupted --local commit (branch
+   tip written, tree not), then update: the old tip 1 is now a pending merge *)
+Example C23_update_keeps_local_work_stale_tree_ex :
+  let s := run (init [false; true; false] true) [Commit 1 true (Some 1)] in
+  exists c s' c', nth_error (cos s) 1 = Some c /\ tip (lbranch c) = Some 1 /\ tparents c = [0] /\
     update s 1 = (Done, s') /\ nth_error (cos s') 1 = Some c' /\
-    tip (lbranch c') = Some 0 /\ tparents c' = [0].
-Proof. exact update_keeps_local_work_refuted. Qed.
-Print Assumptions C23_update_keeps_local_work_refuted.
+    tip (lbranch c') = Some 0 /\ tparents c' = [0; 1].
+Proof. eexists. eexists. eexists. repeat split; reflexivity. Qed.
 
 (* a lightweight or unbound checkout: update moves only the tree, onto its branch's tip *)
 Theorem C23_update_tree_only :
